@@ -89,10 +89,11 @@ def coords(c, mask):
 
 
 def scatter(modes, coeffs, extra=None):
-    n = max(list(modes) + [len(extra or [])])
+    n = max(list(modes) + [len(extra or []), 1])
     w = [Fraction(0)] * n
     for j, cv in zip(modes, coeffs):
-        w[j - 1] += fr(cv)
+        if j >= 1:          # invalid indices (error cases) carry no content
+            w[j - 1] += fr(cv)
     for k, e in enumerate(extra or []):
         w[k] += fr(e)
     return w
@@ -218,10 +219,13 @@ def well_conditioned(c):
         p = prep(c)
         B = masked_basis(c, p, c['modes'], p['nrm'])
         B1 = B if p['nrm'] else masked_basis(c, p, c['modes'], True)
-        if not (np.all(np.isfinite(B)) and np.all(np.isfinite(B1))):
-            return False
-        return max(np.linalg.cond(B), np.linalg.cond(B1)) <= COND_MAX
     except Exception:
+        return True        # the implementation failed on a well-formed call: keep the case, run_impl/oracle report it
+    if not (np.all(np.isfinite(B)) and np.all(np.isfinite(B1))):
+        return False
+    try:
+        return max(np.linalg.cond(B), np.linalg.cond(B1)) <= COND_MAX
+    except np.linalg.LinAlgError:
         return False
 
 
@@ -323,7 +327,14 @@ def enc_table(p, entries, crdflag):
 def encode(c):
     if not c.get('_corpus') and model_cost(c) > MODEL_BUDGET_S[_tier[0]]:
         return None
-    p = prep(c)
+    try:
+        p = prep(c)
+        return encode_prepared(c, p)
+    except Exception:
+        return None           # the implementation could not even produce the inputs: run_impl/oracle report it
+
+
+def encode_prepared(c, p):
     crdflag = 1 if c.get('crd') else 0
     modes = list(c['modes'])
     good = sorted({j for j in modes if j >= 1})
@@ -355,10 +366,10 @@ def decode(c, ints):
 # ------------------------------------------------------------------ implementation side
 def run_impl(c):
     lentil = C.import_lentil()
-    p = prep(c)
-    mask, rho, theta, nrm = p['mask'], p['rho'], p['theta'], p['nrm']
     modes = list(c['modes'])
     try:
+        p = prep(c)
+        mask, rho, theta, nrm = p['mask'], p['rho'], p['theta'], p['nrm']
         if c['op'] == 'compose':
             opd = lentil.zernike_compose(mask, p['w'], nrm, rho, theta)
             res = {'arr': np.asarray(opd, dtype=float)}
@@ -389,7 +400,8 @@ def run_impl(c):
             res['input_changed'] = not np.array_equal(y, y0)
             return res
     except Exception as e:
-        return {'err': type(e).__name__}
+        # np.linalg.LinAlgError is a ValueError; the property does not pin the error class any further
+        return {'err': 'ValueError' if isinstance(e, ValueError) else type(e).__name__}
 
 
 def close(a, b, scale, what, tol=TOL):
@@ -440,7 +452,7 @@ def oracle(c, impl):
     if c.get('expect_error') or c.get('opd_shape'):
         return None          # the property does not speak about malformed calls; the tie compares the error kinds
     if 'err' in impl:
-        return f'zernike_{c["op"]} raised {impl["err"]} on a well-formed call'
+        return f'zernike_{c["op"]} (or zernike_compose preparing its input) raised {impl["err"]} on a well-formed call'
     p = prep(c)
     mask = p['mask']
     inside = mask != 0
